@@ -30,7 +30,9 @@ ASSUMPTIONS = [
     "verdicts are relative to the simulated kernel",
 ]
 POOL = ["a", "A", "a", "A", "web", "WEB", "Web", "web", "", " x", "a b",
-        "ü", "Ü", "*", "a*", "b"]
+        "ü", "Ü", "*", "a*", "b",
+        # letters whose case folding differs from their lower case
+        "ß", "\u1e9e", "\u03a3", "\u03c3", "\u03c2"]
 
 
 def _ini(names):
